@@ -920,6 +920,14 @@ def run_race_case(ctx, version, variant, label):
                 ctx.count('race=reader,window-closed')
             else:
                 timeouts.append('main waiting for W2')
+        closed = False
+        if variant in ('mid', 'late') and os.path.exists(os.path.join(cache_dir, 'L03', 'R0000C0000.lck')):
+            # W2 creates the bundle file while it HOLDS the bundle lock (repaired code): the second writer cannot get
+            # in between, the window of this schedule does not exist; let both run, they are serialised by the lock
+            closed = True
+            ctx.count('race=%s,window-closed' % variant)
+            ev['w1_appended'].set()
+            ev['w2_init_done'].set()
         w1.start()
         if variant in ('late', 'reader'):
             w1.join(3 * WAIT)
@@ -1552,6 +1560,13 @@ def run(ctx):
                 run_fault_case(ctx, version, gen_fault_history(ctx), 'fault-%d' % i)
             except Exception as ex:   # noqa
                 ctx.problem('harness', 'fault case %d (v%d) could not be run: %r' % (i, version, ex), None)
+    # the store that is hit creates a NEW bundle: its first raw write is the creation of the bundle file(s)
+    for version in (1, 2):
+        try:
+            run_fault_case(ctx, version, [('S', [((1, 1, 0), [5, 6, 7])]),
+                                          ('S', [((3, 3, 4), [1, 2, 3, 4]), ((9, 9, 4), [8] * 40)])], 'fault-new-bundle')
+        except Exception as ex:   # noqa
+            ctx.problem('harness', 'fault case new-bundle (v%d) could not be run: %r' % (version, ex), None)
     for version in (2, 1):
         for fn, name in ((run_three_writers, 'lock-handover'), (run_big_tile, 'big-tile')):
             try:
